@@ -312,7 +312,7 @@ async def _assert_preconditions_async(
                 check = await contract.condition(**condition_kwargs)
             else:
                 check_or_coroutine = contract.condition(**condition_kwargs)
-                if inspect.iscoroutine(check_or_coroutine):
+                if inspect.isawaitable(check_or_coroutine):
                     check = await check_or_coroutine
                 else:
                     check = check_or_coroutine
@@ -468,7 +468,7 @@ async def _assert_postconditions_async(
             check = await contract.condition(**condition_kwargs)
         else:
             check_or_coroutine = contract.condition(**condition_kwargs)
-            if inspect.iscoroutine(check_or_coroutine):
+            if inspect.isawaitable(check_or_coroutine):
                 check = await check_or_coroutine
             else:
                 check = check_or_coroutine
